@@ -60,6 +60,8 @@ DESC = {
  "C14-d": ("dag state.WritePayload: single write transaction split in two (payload first, subscriber events in a second transaction)", "stop / cancel / Save failure between the two"),
  "C15-a": ("grpc authenticate(): shortcut marks peer authenticated when the claimed node DID already has an authenticated connection", "node claiming a connected participant's DID"),
  "C15-b": ("dag State.Add: for a present tx with missing payload, stores the supplied payload without hash check", "peer sends forged payload in a transaction list for a known private tx"),
+ "C15-c": ("v2 handleTransactionRangeQuery: builds the list itself (payload of every transaction, tolerating ErrPayloadNotFound) instead of calling collectTransactionList: the PAL filter is lost", "any peer sends a TransactionRangeQuery covering a private transaction this node participates in"),
+ "C15-d": ("v2 handleTransactionPayloadQuery: grant remembered per (self-asserted) peer ID in a sync.Map, checked before the Authenticated / PAL checks", "participant fetches the payload, then an unauthenticated connection presents the same peer ID"),
  "C16-a": ("discovery validateRetraction: existence looked up by JWT sub claim instead of the presentation signer", "retraction with sub different from signer"),
  "C16-b": ("discovery wipeOnSeedChange: gorm Updates(struct) skips zero LastLamportTimestamp", "server seed change with lower timestamps"),
  "C16-c": ("discovery updateValidated: one batched UPDATE keyed on presentation_id (the VP's jti) instead of the row's primary key", "same jti on two rows (replay on a second service / forged VP reusing an id)"),
@@ -74,6 +76,8 @@ DESC = {
  "C18-d": ("didsubject Resolver.Resolve: deactivation check only enforced when no ResolveTime is given", "created-then-deactivated managed DID resolved with ResolveTime set"),
  "C19-a": ("didnuts handleUpdateDIDDocument: resolve helper swallows ErrNotFound also in the latest-version fallback, returning (nil, nil) that is dereferenced", "update transaction for a DID whose create was never received"),
  "C19-b": ("tree Iblt.Decode: visited-set loop guard removed", "peer IBLT crafted so that decoding cycles"),
+ "C19-c": ("v2 conversation.go: checked type assertions in Envelope_State.checkResponse / Envelope_TransactionListQuery.checkResponse became unchecked", "peer answers an open conversation with the wrong envelope type reusing the conversation id"),
+ "C19-d": ("pe apply(): collects the non-empty members then slices selected[:*Count] / selected[:*Max]", "remote presentation definition with count/max -1"),
  "C20-a": ("core loadFromFlagSet: flags.Visit with err overwritten by later flags", "secret flag followed by a later-sorting non-secret flag"),
  "C20-b": ("http configureClient: early return for ResponseCacheSize<=0 placed above client.StrictMode assignment", "http.cache.maxbytes=0 in strict mode"),
  "C20-c": ("jsonld filteredDocumentLoader.LoadDocument: allow-list entries matched with strings.HasPrefix(u, allowedURL) instead of ==", "https://schema.org.attacker.tld/... in strict mode"),
@@ -107,12 +111,16 @@ BLIND = {
  "C13-d": ("caught", ""),
  "C14-c": ("missed", "blind miss; added C14.notify.failed-live-delivery-is-retried / retry-decision-only-after-failure"),
  "C14-d": ("missed", "blind miss; added C14.save.writepayload-same-tx"),
+ "C15-c": ("caught", ""),
+ "C15-d": ("caught", ""),
  "C16-c": ("missed", "blind miss; added C16.store.validated-flag-by-primary-key"),
  "C16-d": ("caught", ""),
  "C17-c": ("caught", ""),
  "C17-d": ("caught", "by C01.jwt.kid-of-issuer"),
  "C18-c": ("caught", "by C18.url.ip-test-on-hostname, added an hour earlier after a hand-written mutant survived"),
  "C18-d": ("caught", ""),
+ "C19-c": ("caught", "also by C07.checkResponse.*.type"),
+ "C19-d": ("missed", "blind miss; added detector D7 (a number decoded from input used as slice bound / index / allocation size without lower- and upper-bound comparisons)"),
  "C20-c": ("missed", "blind miss; added C20.jsonld.filter-is-exact-match"),
  "C20-d": ("caught", ""),
  "C10-c": ("missed", "blind miss; added C10.add.two-phase-write"),
